@@ -74,6 +74,9 @@ setup_worker = c08.setup_worker
 
 def build(struct):
     import jaxtyping as jt
+    g = getattr(type(jt.PyTree), "__getitem__", None)
+    if hasattr(g, "cache_clear"):
+        g.cache_clear()
     try:
         with S.allow_identity_hash():
             ann = jt.PyTree[int, struct]
